@@ -192,7 +192,14 @@ func (g *c18gen) nest() {
 		g.feat["in-block"] = true
 		g.n++
 		name := fmt.Sprintf("b%d", g.n)
-		g.both("{{block " + name + "()}}(" + name + ":{{ probe(\"" + name + "\") }}")
+		decl := name + "()"
+		if g.r.Intn(3) == 0 {
+			// a block declared with a context expression of its own: that context is for the definition site only; a yield
+			// (from the template or from Go) brings its own context or keeps the current one
+			decl += fmt.Sprintf(" %q", "declctx-"+name)
+			g.feat["block-declared-with-context"] = true
+		}
+		g.both("{{block " + decl + "}}(" + name + ":{{ probe(\"" + name + "\") }}[.={{ . }}]")
 		saveScopes, saveNames := g.scopes, g.names
 		g.scopes = []map[string]bool{{}} // a block body may be yielded from anywhere: no local name is statically visible,
 		// and (blocks being dynamically scoped, a design choice) it uses names of its own so that it never touches the yielder's
@@ -321,7 +328,7 @@ func c18run(c *fw.Ctx, idx int) {
 	c.Eval(2)
 	c.Count("twins", 1)
 	var feats []string
-	for _, k := range []string{"let-nil", "let", "set", "set-undeclared", "setorlet", "resolve", "context", "yieldblock", "yieldblock-ctx", "letglobal", "in-if", "in-range", "in-block", "in-include", "in-try", "below-content", "resolve-loop-var", "set-builtin-name", "yieldblock-typed-nil-ctx"} {
+	for _, k := range []string{"let-nil", "let", "set", "set-undeclared", "setorlet", "resolve", "context", "yieldblock", "yieldblock-ctx", "letglobal", "in-if", "in-range", "in-block", "in-include", "in-try", "below-content", "resolve-loop-var", "set-builtin-name", "yieldblock-typed-nil-ctx", "block-declared-with-context"} {
 		if g.feat[k] {
 			feats = append(feats, k)
 			c.Count("feature:"+k, 1)
@@ -398,6 +405,11 @@ func c18args(c *fw.Ctx, idx int, r *rand.Rand) {
 			return reflect.ValueOf(render(vs))
 		})
 		vars.SetFunc("JN", func(a jet.Arguments) reflect.Value { return reflect.ValueOf(a.NumOfArguments()) })
+		// reads behind the last argument (the usual way to probe an optional trailing argument): no value, no failure
+		vars.SetFunc("JB", func(a jet.Arguments) reflect.Value {
+			n := a.NumOfArguments()
+			return reflect.ValueOf(fmt.Sprintf("%d:%v%v%v", n, a.Get(n).IsValid(), a.Get(n+1).IsValid(), a.Get(n+5).IsValid()))
+		})
 		vars.SetFunc("JS", func(a jet.Arguments) reflect.Value {
 			s := ""
 			for i := -1; i <= a.NumOfArguments(); i++ {
@@ -444,7 +456,12 @@ func c18args(c *fw.Ctx, idx int, r *rand.Rand) {
 		gn := exec(src, "JN")
 		gp := exec(src, "JP")
 		gs := exec(src, "JS")
-		c.Eval(5)
+		gb := exec(src, "JB")
+		c.Eval(6)
+		if gb.Failed() || gb.Out != fmt.Sprintf("%d:falsefalsefalse", n) {
+			c.Violation("c18:args:Get-behind-last-argument:"+kind, "", fmt.Sprintf("%s: Get(n), Get(n+1), Get(n+5) with n=NumOfArguments gave %s, want \"%d:falsefalsefalse\"", src, gb, n))
+			return
+		}
 		if rr.Failed() || rr.Out != ref.Out {
 			c.Violation("c18:args:reflected-form-differs:"+kind, "", fmt.Sprintf("%s with the reflected function: %s; plain call: %q", src, rr, ref.Out))
 			return
